@@ -403,3 +403,38 @@ prop("C14",
                    "model"],
      assumptions=["exact arithmetic; dtypes not compared"],
      unverified_surroundings=["pytato.target.python.jax (needs JAX)"])
+
+prop("C15",
+     level="proof",
+     level_text=(
+         "Deductive proof over the name generator's contract (fresh names are "
+         "outside its set; add reserves): the real generate_loopy / "
+         "preprocess / _generate_name_for_temp source, interpreted, reserves "
+         "every user-chosen name (inputs, size parameters, output keys) in a "
+         "generator before that generator hands out a colliding-capable "
+         "name; a Named tag yields exactly its name and reserves it or "
+         "raises; a second input object with a seen name raises "
+         "NameClashError; placeholders keep their names; wrapped data objects "
+         "are pre-bound unmodified."),
+     level_note=(
+         "Freedom from collisions for ALL user namings follows from the "
+         "generator contract plus the proved event order, because no branch "
+         "of the code depends on the spelling of a user name other than "
+         "through the generator (parametricity in names -- argued). The event "
+         "traces are those of six program shapes covering every naming site "
+         "(temporaries, substitutions, data wrappers, reductions, size "
+         "parameters, outputs that are inputs). Names loopy invents itself "
+         "(accumulators, make_reduction_inames_unique) are checked only for "
+         "pairwise distinctness on the generated kernels of those shapes."),
+     technique="contract-based deductive verification: event-order "
+               "obligations on the trace of the interpreted real source under "
+               "an assumed generator contract",
+     design_ref="DESIGN.md §6 C15",
+     explanation="see contracts/c15_names.py",
+     structural_bound="six program shapes x the adversarial name set of the "
+                      "property (temp_0, pt_temp, x_dim0, acc_x, acc_o, ...)",
+     trusted_base=["pytools.UniqueNameGenerator satisfies its contract",
+                   "loopy's own name generation"],
+     assumptions=["parametricity of the code in user names"],
+     unverified_surroundings=["loopy (make_reduction_inames_unique, "
+                              "accumulator names)"])
